@@ -256,10 +256,29 @@ def check(prop, tier, seed):
             return m.group(1) if m else ""
         def sig_ok(k, site, reason, detail):
             """a listed finding with recorded [got, want, bg] triples covers only those triples"""
-            sg = (k.get("sigs") or {}).get(f"{site}|{reason}")
-            if not sg:
+            sgs = k.get("sigs")
+            if not sgs:
                 return True
-            return [field(detail, "got"), field(detail, "want"), field(detail, "bg")] in sg
+            sg = sgs.get(f"{site}|{reason}")
+            if not sg:
+                return False      # a finding with recorded signatures covers only the pairs it records
+            if sg == "*":
+                return True       # … this pair with any values (windows vary)
+            trip = [field(detail, "got"), field(detail, "want"), field(detail, "bg")]
+            # (C05: the number of pending polls in `got=<cmd>@busy<n>` is the schedule's, not the defect's)
+            norm = [re.sub(r"@busy\d+$", "@busy*", trip[0]), trip[1], trip[2]]
+            return trip in sg or norm in sg
+        def delta_ok(k, reason, detail):
+            """a finding that records `delta` for a reason covers only failures whose got - want
+            (component-wise, for 4-tuples like window registers) is one of the recorded deltas"""
+            dl = (k.get("delta") or {}).get(reason)
+            if not dl:
+                return True
+            g = re.search(r"got=\((-?\d+),(-?\d+),(-?\d+),(-?\d+)\)", detail)
+            w = re.search(r"want=\((-?\d+),(-?\d+),(-?\d+),(-?\d+)\)", detail)
+            if not g or not w:
+                return False
+            return [int(a) - int(b) for a, b in zip(g.groups(), w.groups())] in dl
         known_hit = {}
         unlisted = []
         for feat, sid, detail in fails:
@@ -271,7 +290,7 @@ def check(prop, tier, seed):
                 ctx_ok = ("ctx" not in k) or (field(detail, "ctx") in k["ctx"])
                 # optional narrowing on the failure detail (e.g. one background colour only)
                 ctx_ok = ctx_ok and (("match" not in k) or re.search(k["match"], detail) is not None)
-                ctx_ok = ctx_ok and sig_ok(k, site, reason, detail)
+                ctx_ok = ctx_ok and sig_ok(k, site, reason, detail) and delta_ok(k, reason, detail)
                 # optional narrowing on the scenario itself (e.g. "the history contains a partial update")
                 ctx_ok = ctx_ok and (("scen" not in k) or re.search(k["scen"], all_lines.get((feat, sid), "")) is not None)
                 if any(fnmatch.fnmatchcase(site, s_) for s_ in sites) and reason in reasons and ctx_ok:
@@ -281,6 +300,9 @@ def check(prop, tier, seed):
                 known_hit.setdefault(hit["id"], []).append((feat, sid, detail))
             else:
                 unlisted.append((feat, sid, detail))
+        if os.environ.get("VERIF_DUMP_KNOWN"):
+            with open(os.path.join(WORK, f"known_hit_{prop}.json"), "w") as fh:
+                json.dump({kid: [d_ for (_, _, d_) in v] for kid, v in known_hit.items()}, fh)
         # a listed finding only suppresses while its own witness still fails in the recorded way
         for k in known:
             wid = re.match(r"id=(\S+)", k["witness"]).group(1) if k.get("witness") else None
@@ -319,7 +341,7 @@ def check(prop, tier, seed):
                     listed = any((any(fnmatch.fnmatchcase(site, s_) for s_ in (k.get("sites") or [k["site"]])) and reason in (k.get("reasons") or [k["reason"]])
                                   and (("ctx" not in k) or field(parts[4], "ctx") in k["ctx"])
                                   and (("match" not in k) or re.search(k["match"], parts[4]) is not None)
-                                  and sig_ok(k, site, reason, parts[4])
+                                  and sig_ok(k, site, reason, parts[4]) and delta_ok(k, reason, parts[4])
                                   and (("scen" not in k) or re.search(k["scen"], all_lines.get(("v3", parts[1]), "")) is not None)) for k in known)
                     if not listed:
                         unlisted.append(("v3", parts[1], parts[4]))
